@@ -338,7 +338,7 @@ _tg, _te = _thr.make(T_CALLS, ['geodepy/angles.py'], 'angles:arithmetic:threads'
 SUBCHECKS = [
     Sub('ops', gen_ops, ev_ops, chunk=1, floor=80, timeout=1800, envs=8),
     Sub('chains', gen_chain, ev_chain_single, chunk=1, floor=1000, envs=6),
-    Sub('threads', _tg, _te, chunk=1, floor=3, poison=False, fresh=True),
+    Sub('threads', _tg, _te, chunk=1, floor=3, poison=False, fresh=True, timeout=3600),
 ]
 
 
